@@ -51,16 +51,8 @@ class MacroResolutionOrderVisitor(ExplorerScriptVisitor):
     def visitStart(self, ctx: ExplorerScriptParser.StartContext) -> list[str]:
         self.visitChildren(ctx)
         self._check_cycles()
-        roots = [v for v in self._dependency_graph.vs if len(v.in_edges()) == 0]
-        resolution_order: list[str] = []
-        for v in roots:
-            resolution_order_local = []
-            for sv in self._dependency_graph.bfsiter(v.index):
-                if sv["name"] in resolution_order:
-                    resolution_order.remove(sv["name"])
-                resolution_order_local.append(sv["name"])
-            resolution_order += resolution_order_local
-        return resolution_order
+        # The edges point from the used macro to the macro using it: every macro comes after all macros it uses.
+        return [self._dependency_graph.vs[i]["name"] for i in self._dependency_graph.topological_sorting()]
 
     def visitMacrodef(self, ctx: ExplorerScriptParser.MacrodefContext) -> None:
         self._active_macro_name = str(ctx.IDENTIFIER())
